@@ -410,6 +410,63 @@ fn reserved_names() -> Option<(String, String)> {
     None
 }
 
+/// A name registered again designates the function registered last (register_native_function
+/// reports success): for every pair of arities, registered twice before a run or re-registered
+/// between two runs on one VM, through a CallNative card and a native function value.
+fn reregistration() -> Vec<(String, String)> {
+    fn reg(vm: &mut Vm<H>, arity: usize) -> bool {
+        match arity {
+            0 => vm.register_native_function("dup", t0 as fn(&mut Vm<H>) -> HR),
+            1 => vm.register_native_function("dup", into_f1(t1::<Value>)),
+            2 => vm.register_native_function("dup", into_f2(t2::<Value, i64>)),
+            3 => vm.register_native_function("dup", into_f3(t3::<Value, i64, f64>)),
+            _ => vm.register_native_function("dup", into_f4(t4::<Value, i64, f64, &'static str>)),
+        }
+        .is_ok()
+    }
+    fn prog(arity: usize, path: usize) -> Module {
+        let args: Vec<C> = (0..arity).map(|p| supplied(exact_kind(p))).collect();
+        let the_call = if path == 0 { native("dup", args) } else { C::DynCall(b(C::NativeFunction("dup".into())), args) };
+        module(vec![("main", func(&[], vec![sv("canary", int(5)), sg("res", the_call), sg("canary_after", rv("canary"))]))])
+    }
+    let mut out = Vec::new();
+    for old in 0..=4usize {
+        for new in 0..=4usize {
+            for path in 0..2usize {
+                for between_runs in [false, true] {
+                    let label = format!("`dup` registered with {old} parameters, then with {new} ({}), path {path}", if between_runs { "after a run that called the first one" } else { "before the first run" });
+                    let mut vm: Vm<H> = Vm::new(H::default()).unwrap();
+                    if !reg(&mut vm, old) {
+                        out.push(("reregister:first-failed".to_string(), label));
+                        continue;
+                    }
+                    if between_runs {
+                        let p = compile(lower::module(&prog(old, path)), CompileOptions::new()).expect("compile");
+                        if let Err(e) = vm.run(&p) {
+                            out.push(("reregister:first-run".to_string(), format!("{label}: {}", e.payload)));
+                            continue;
+                        }
+                        vm.auxiliary_data.calls.clear();
+                    }
+                    if !reg(&mut vm, new) {
+                        out.push(("reregister:rejected".to_string(), format!("{label}: the second registration failed")));
+                        continue;
+                    }
+                    let p = compile(lower::module(&prog(new, path)), CompileOptions::new()).expect("compile");
+                    let r = vm.run(&p);
+                    let names: Vec<String> = vm.auxiliary_data.calls.iter().map(|c| c.0.split('_').next().unwrap_or("").to_string()).collect();
+                    let res = vm.read_var_by_name("res", &p.variables);
+                    let canary = vm.read_var_by_name("canary_after", &p.variables);
+                    if r.is_err() || names != vec![format!("t{new}")] || res != Some(Value::Integer(1000 + new as i64)) || canary != Some(Value::Integer(5)) {
+                        out.push(("reregister:old-function-called".to_string(), format!("{label}: result {:?}, host functions that ran {names:?} with {:?}, call value {res:?}, caller local {canary:?}", r.as_ref().map_err(|e| e.payload.to_string()), vm.auxiliary_data.calls.iter().map(|c| c.1.clone()).collect::<Vec<_>>())));
+                    }
+                }
+            }
+        }
+    }
+    out
+}
+
 // ---- (b) re-entry -------------------------------------------------------------------------------
 
 static FAMS: OnceLock<Vec<Box<dyn Family>>> = OnceLock::new();
@@ -481,7 +538,7 @@ impl Check for C18 {
     }
     fn info(&self, tier: Tier) -> CheckInfo {
         CheckInfo {
-            rule: format!("(d) a host function that handles the error of run_function (careful / naive about its pushed argument, returning / failing callee) called at every recursion depth 0..256, i.e. with every number of free call frames down to 0: every level of the recursion continues exactly once and keeps its locals. (a) typed parameters: natives of arity 0..4 whose parameter types are the 8 rotations of [Value, i64, f64, &str, &CaoLangTable, *mut CaoLangTable, Nilable<i64>, bool] (every position sees every type), called with every supplied kind (nil, int, real, string, table, function; all 6^k combinations for k <= 2, one varying position for k = 3, 4) through a CallNative card, a native function value + dynamic call and a host function's run_function, at call depth 0, 1 and 2 ({} cases): received parameters in declaration order per the conversion table (exact-kind conversions unchanged; a conversion that must fail -> TaskFailure(name: InvalidArgument naming a rejectable position); coercing conversions = the coercion or a rejection), the call card's value, caller locals and outer locals intact; names starting with __ cannot be registered. (b) F-reenter ({} programs): host function pushing 0..2 arguments and calling run_function on a script function / closure capturing a caller variable / native function value / non-function / library function, callee body returning plainly, early, falling off, erroring, recursing through the host function to depth 3, returning from inside a loop; call site in main / callee / loop, result used as statement value, operand above a live temporary, new local; reference outcome + value-stack height and call-stack depth equal before and after every successful run_function (checked inside the host function through the hook accessors). 'states' = distinct reference outcomes (b) / cases (a)", tcases().len(), progcheck::total_cases(families(tier))),
+            rule: format!("(d) a host function that handles the error of run_function (careful / naive about its pushed argument, returning / failing callee) called at every recursion depth 0..256, i.e. with every number of free call frames down to 0: every level of the recursion continues exactly once and keeps its locals. (a) typed parameters: natives of arity 0..4 whose parameter types are the 8 rotations of [Value, i64, f64, &str, &CaoLangTable, *mut CaoLangTable, Nilable<i64>, bool] (every position sees every type), called with every supplied kind (nil, int, real, string, table, function; all 6^k combinations for k <= 2, one varying position for k = 3, 4) through a CallNative card, a native function value + dynamic call and a host function's run_function, at call depth 0, 1 and 2 ({} cases): received parameters in declaration order per the conversion table (exact-kind conversions unchanged; a conversion that must fail -> TaskFailure(name: InvalidArgument naming a rejectable position); coercing conversions = the coercion or a rejection), the call card's value, caller locals and outer locals intact; names starting with __ cannot be registered; a name registered a second time (every pair of arities 0..4, before the first run or between two runs on one VM, CallNative card and native function value) designates the function registered last. (b) F-reenter ({} programs): host function pushing 0..2 arguments and calling run_function on a script function / closure capturing a caller variable / native function value / non-function / library function, callee body returning plainly, early, falling off, erroring, recursing through the host function to depth 3, returning from inside a loop; call site in main / callee / loop, result used as statement value, operand above a live temporary, new local; reference outcome + value-stack height and call-stack depth equal before and after every successful run_function (checked inside the host function through the hook accessors). 'states' = distinct reference outcomes (b) / cases (a)", tcases().len(), progcheck::total_cases(families(tier))),
             bound: "full product as described".into(),
             exhaustive: true,
             assumptions: vec!["coercing conversions (anything to i64/f64/bool, non-nil to Nilable) may yield the coercion or be rejected: the statement documents no more".into()],
@@ -523,6 +580,10 @@ impl Check for C18 {
             if let Some((k, w)) = reserved_names() {
                 out.violation(Violation::new("C18", k, w, json!({"reserved_names": true})));
             }
+            for (k, w) in reregistration() {
+                out.violation(Violation::new("C18", k, w, json!({"reregistration": true})));
+            }
+            out.evaluations += 100;
             for n in 0..=256i64 {
                 for host in ["try_call", "try_call1", "try_call1_keep"] {
                     for failing in [false, true] {
@@ -555,6 +616,9 @@ impl Check for C18 {
         }
         if case["reserved_names"].as_bool() == Some(true) {
             return reserved_names().map(|(k, w)| Violation::new("C18", k, w, case.clone()));
+        }
+        if case["reregistration"].as_bool() == Some(true) {
+            return reregistration().into_iter().next().map(|(k, w)| Violation::new("C18", k, w, case.clone()));
         }
         progcheck::replay(&JUDGE, case)
     }
